@@ -128,8 +128,10 @@ class C24(PropBase):
         if rng.chance(0.15):
             del opts["--inline-suppr"]
         subs = [gen_run(rng, execs=("thread", "process"), maxjobs=5) for _ in range(rng.randint(1, 3))]
-        return {"tree": proj["tree"], "units": units, "langs": proj["langs"], "opts": opts, "suppr": suppr, "bd": False,
-                "exitcode": None, "subjects": subs}
+        scn = {"tree": proj["tree"], "units": units, "langs": proj["langs"], "opts": opts, "suppr": suppr, "bd": False,
+               "exitcode": None, "subjects": subs}
+        scn["suppr_via"] = rng.choice(["cmdline", "cmdline", "list", "xml"])     # the same entries through a suppressions file
+        return scn
 
     def execute(self, scn, wd):
         out = Outcome()
